@@ -729,7 +729,7 @@ func (e *FuncEnc) cellLoad(st *state, al *ssa.Alloc) string {
 
 func viewsEq(trA, trB, w string) string {
 	var cs []string
-	for _, view := range []string{"jst", "jobj", "jdup", "jkey", "jarr"} {
+	for _, view := range jsonViewNames {
 		cs = append(cs, eq(sx(view, trA, w), sx(view, trB, w)))
 	}
 	return and(cs...)
@@ -951,20 +951,41 @@ func (jf *JSONFamily) installArrayInner(f *ssa.Function, jt *jsonType) {
 		st := sx("jst", e.cur.trace, args[1])
 		return []NamedFormula{{Name: "start-state", Props: []string{"C06"}, Formula: and(not(eq(sx("if_tag", args[1]), "0")), or(eq(st, "20"), eq(st, "99")))}}
 	}
-	spec := func(e *FuncEnc, cv, out, err, tr0, tr1 string) []NamedFormula {
+	elemT := jt.Named.Underlying().(*types.Slice).Elem()
+	itemProblem := ""
+	if !goKindMatches(elemT, jt.Schema.Items) {
+		itemProblem = fmt.Sprintf("items of Go type %s do not encode as the declared item type", elemT)
+		jf.note(jt.Named.Obj().Name() + ": " + itemProblem)
+	}
+	// items(e, cv, st, alen0, aidx, upto): the items at positions [alen0, alen0+upto) of aidx are
+	// the encodings of c[0..upto), earlier positions are those of aidx0
+	items := func(e *FuncEnc, cv string, st *state, alen0, aidx0, aidx, upto string) string {
+		if itemProblem != "" {
+			return "false"
+		}
+		base, off := constOf(e, "arr_base", "Int", sx("sl_base", cv)), constOf(e, "arr_off", "Int", sx("sl_off", cv))
+		el := e.load(st, sx("elem", base, "qa"), elemT)
+		want := sx("j_some", sx("jv_enc", e.ifaceOf(elemT, el)))
+		ax := constOf(e, "arr_idx", "(Array Int JOpt)", aidx)
+		_ = aidx0
+		return fmt.Sprintf("(forall ((qa Int)) (! (=> (and (<= %s qa) (< qa (+ %s %s))) (= (select %s (+ %s (- qa %s))) %s)) :pattern ((elem %s qa))))", off, off, upto, ax, alen0, off, want, base)
+	}
+	spec := func(e *FuncEnc, cv, out, err, tr0, tr1 string, st0s *state) []NamedFormula {
 		e.jsonEvents()
 		st0, st1 := sx("jst", tr0, out), sx("jst", tr1, out)
 		ok := and(eq(sx("if_tag", err), "0"), not(eq(st0, "99")))
+		n := sx("sl_len", cv)
 		return []NamedFormula{
-			{Name: "ensures#state", Props: []string{"C06"}, Formula: implies(ok, eq(st1, ite(sx(">", sx("sl_len", cv), "0"), "22", "20")))},
+			{Name: "ensures#state", Props: []string{"C06"}, Formula: implies(ok, eq(st1, ite(sx(">", n, "0"), "22", "20")))},
 			{Name: "ensures#bad-stays-bad", Props: []string{"C06"}, Formula: implies(eq(st0, "99"), eq(st1, "99"))},
+			{Name: "ensures#items", Props: []string{"C07"}, Formula: implies(ok, and(eq(sx("jalen", tr1, out), sx("+", sx("jalen", tr0, out), n)), items(e, cv, st0s, sx("jalen", tr0, out), sx("jaidx", tr0, out), sx("jaidx", tr1, out), n)))},
 		}
 	}
 	c.RetHook = func(e *FuncEnc, results []string) []NamedFormula {
-		return spec(e, e.val[f.Params[0]], e.val[f.Params[1]], results[0], e.entry.trace, e.cur.trace)
+		return spec(e, e.val[f.Params[0]], e.val[f.Params[1]], results[0], e.entry.trace, e.cur.trace, e.entry)
 	}
 	c.PostHook = func(e *FuncEnc, args, results []string, pre, post *state) []NamedFormula {
-		fs := spec(e, args[0], args[1], results[0], pre.trace, post.trace)
+		fs := spec(e, args[0], args[1], results[0], pre.trace, post.trace, pre)
 		for _, w := range e.jsonWriters() {
 			if w != args[1] {
 				fs = append(fs, NamedFormula{Name: "frame", Formula: implies(not(eq(w, args[1])), viewsEq(post.trace, pre.trace, w))})
@@ -994,9 +1015,12 @@ func (jf *JSONFamily) installArrayInner(f *ssa.Function, jt *jsonType) {
 			}
 			done := sx("+", idx.s, "1")
 			G := and(eq(sx("if_tag", e1), "0"), not(eq(st0, "99")))
+			cv := e.val[f.Params[0]]
+			tr0, tr1 := e.entry.trace, st.trace
 			return []NamedFormula{
 				{Name: "invariant#comma-state", Props: []string{"C06"}, Formula: implies(G, or(and(eq(done, "0"), eq(c1, "str_empty"), eq(st1, "20")), and(sx(">", done, "0"), eq(c1, "lit_comma"), eq(st1, "22"))))},
 				{Name: "invariant#bad-stays-bad", Props: []string{"C06"}, Formula: implies(eq(st0, "99"), eq(st1, "99"))},
+				{Name: "invariant#items", Props: []string{"C07"}, Formula: implies(G, and(eq(sx("jalen", tr1, out), sx("+", sx("jalen", tr0, out), done)), items(e, cv, e.entry, sx("jalen", tr0, out), sx("jaidx", tr0, out), sx("jaidx", tr1, out), done)))},
 			}
 		}
 	}
@@ -1006,14 +1030,29 @@ func (jf *JSONFamily) installArrayInner(f *ssa.Function, jt *jsonType) {
 func (jf *JSONFamily) installArrayOuter(f *ssa.Function, jt *jsonType) {
 	c := newFamilyContract(f)
 	c.Options["family"] = "json-marshal-array"
-	spec := func(e *FuncEnc, res, err string) []NamedFormula {
+	elemT := jt.Named.Underlying().(*types.Slice).Elem()
+	spec := func(e *FuncEnc, cv, res, err string, st0s *state) []NamedFormula {
 		e.jsonEvents()
 		e.D.UF("doc_st", []string{"Slice"}, "Int")
-		return []NamedFormula{{Name: "ensures#valid", Props: []string{"C06"}, Formula: implies(eq(sx("if_tag", err), "0"), eq(sx("doc_st", res), "24"))}}
+		e.D.UF("doc_alen", []string{"Slice"}, "Int")
+		e.D.UF("doc_aidx", []string{"Slice"}, "(Array Int JOpt)")
+		ok := eq(sx("if_tag", err), "0")
+		out := []NamedFormula{{Name: "ensures#valid", Props: []string{"C06"}, Formula: implies(ok, eq(sx("doc_st", res), "24"))}}
+		if goKindMatches(elemT, jt.Schema.Items) {
+			base, off := constOf(e, "arr_base", "Int", sx("sl_base", cv)), constOf(e, "arr_off", "Int", sx("sl_off", cv))
+			el := e.load(st0s, sx("elem", base, "qa"), elemT)
+			want := sx("j_some", sx("jv_enc", e.ifaceOf(elemT, el)))
+			ax := constOf(e, "arr_idx", "(Array Int JOpt)", sx("doc_aidx", res))
+			out = append(out, NamedFormula{Name: "ensures#items", Props: []string{"C07"}, Formula: implies(ok, and(eq(sx("doc_alen", res), sx("sl_len", cv)),
+				fmt.Sprintf("(forall ((qa Int)) (! (=> (and (<= %s qa) (< qa (+ %s (sl_len %s)))) (= (select %s (- qa %s)) %s)) :pattern ((elem %s qa))))", off, off, cv, ax, off, want, base)))})
+		}
+		return out
 	}
-	c.RetHook = func(e *FuncEnc, results []string) []NamedFormula { return spec(e, results[0], results[1]) }
+	c.RetHook = func(e *FuncEnc, results []string) []NamedFormula {
+		return spec(e, e.val[f.Params[0]], results[0], results[1], e.entry)
+	}
 	c.PostHook = func(e *FuncEnc, args, results []string, pre, post *state) []NamedFormula {
-		return spec(e, results[0], results[1])
+		return spec(e, args[0], results[0], results[1], pre)
 	}
 	c.Modifies = map[string]bool{}
 	jf.Em.W.Contracts[f.String()] = c
